@@ -210,8 +210,17 @@ def _gen_case(rng, force=None):
                 if kind == "dp" and rng.random() < 0.15:
                     xs = []
                 iops.append([kind, o, xs, rng.random() < 0.3] + _wrap(rng, xs))
-    if rng.random() < 0.6:
+    r = rng.random()
+    if r < 0.5:
         ops = cops + iops
+    elif r < 0.75 and cops and iops:
+        # classes are re-declared AFTER the instances were declared and before the round trip
+        k = rng.randint(0, len(cops) - 1)
+        late = cops[k:]
+        for _ in range(rng.randint(1, 2)):
+            c = rng.choice(plain) if plain else rng.randrange(nc)
+            late.append(["only", c, _ifs(rng, ni, 0), rng.random() < 0.5])
+        ops = cops[:k] + iops + late
     else:
         ops = cops + iops
         rng.shuffle(ops)
@@ -303,6 +312,20 @@ def generate(run, tier):
         if falsy:
             case["falsy"] = falsy
         cases.append(case)
+    # the class (or the base it inherits from) is narrowed with an *only* form / extended AFTER its
+    # instances received declarations (directlyProvides, then alsoProvides again), then everything is
+    # round-tripped
+    lbase = {"ifaces": [[], [0], [], []], "classes": [[], [0], [1]], "insts": [[0, []], [1, [4]], [2, []]], "builtin": {}}
+    for early, late in (
+        ([["impl", 0, [1], True]], [["only", 0, [3], True]]),
+        ([["impl", 0, [1], False], ["impl", 1, [2], True]], [["only", 0, [], False]]),
+        ([["impl", 0, [0], True], ["first", 2, 2]], [["only", 1, [3], True], ["impl", 0, [2], False]]),
+        ([["only", 0, [1, 2], False]], [["only", 0, [2], True], ["only", 2, [], False]]),
+    ):
+        ops = [list(o) for o in early] + [["dp", 0, [2]], ["ap", 0, [3]], ["dp", 1, [3]], ["ap", 1, [2]], ["ap", 2, [3]],
+                                          ["ap", 2, [2]]] + [list(o) for o in late]
+        ops += [["iby", c] for c in range(3)]
+        cases.append(dict(lbase, ops=ops))
     for k in range(n):
         cases.append(_gen_case(rng, force="only" if k % 4 == 0 else None))
     return cases
@@ -468,7 +491,18 @@ def kind(case, obs):
 
 
 def _first_bad(obs):
-    return _first_bad_(obs, False) or _first_bad_(obs, True)
+    return _first_bad_(obs, False) or _first_bad_(obs, True) or _first_set_change(obs)
+
+
+def _first_set_change(obs):
+    """an instance declaration / instance whose unpickled form provides a different SET of interfaces"""
+    for rec in obs.get("items", []):
+        if rec["kind"] in ("prov", "inst"):
+            for variant in ("live", "xproc"):
+                for ob in rec.get(variant, []):
+                    if ob["ok"] and set(ob["fafter"]) != set(rec["fbefore"]):
+                        return rec, variant, ob
+    return None
 
 
 def _first_bad_(obs, identity_of_instance_declarations):
